@@ -16,6 +16,7 @@ typedef struct {
 	int level;
 	char path[128], name[128], target[128];   /* as the reader should return them */
 	int supported;
+	unsigned perms; uint32_t mtime; int unix_meta;
 	uint8_t *visible; size_t visible_len;     /* what a read of the member yields when it differs from plain (MacBinary) */
 } ab_member;
 
@@ -64,6 +65,7 @@ static ab_member *ab_add(ab_arc *a, int level, int kind, const char *method, con
 	memset(m, 0, sizeof *m);
 	memset(&f, 0, sizeof f);
 	m->kind = kind; m->level = level;
+	m->perms = perms; m->mtime = mtime; m->unix_meta = unix_meta;
 	snprintf(m->method, sizeof m->method, "%s", kind == 0 ? method : "-lhd-");
 	snprintf(m->path, sizeof m->path, "%s", path);
 	snprintf(m->name, sizeof m->name, "%s", name);
